@@ -625,6 +625,62 @@ fn integer_cells(ctx: &mut Ctx) {
             }
         }
     }
+    // paths and key paths built through the public types (not parsed), with the extremes in
+    // every index position: printed, and evaluated in every mode
+    {
+        use jsonb::jsonpath::{ArrayIndex, Index, JsonPath, Mode, Path, Selector};
+        use jsonb::keypath::{KeyPath, KeyPaths};
+        let doc = refcodec::encode(&Tree::Arr(vec![Tree::Num(Num::U(1)), Tree::Str("a".into()), Tree::Arr(vec![Tree::Null])]));
+        for &x in EXTREMES {
+            for &y in EXTREMES {
+                ctx.next_case();
+                ctx.count("api-built-path-cells");
+                let info = || format!("indices built from {} and {}", x, y);
+                let forms: Vec<Vec<ArrayIndex>> = vec![
+                    vec![ArrayIndex::Index(Index::Index(x)), ArrayIndex::Index(Index::LastIndex(y))],
+                    vec![ArrayIndex::Slice((Index::Index(x), Index::LastIndex(y)))],
+                    vec![ArrayIndex::Slice((Index::LastIndex(x), Index::Index(y))), ArrayIndex::Index(Index::Index(0))],
+                    vec![ArrayIndex::Index(Index::Index(2)), ArrayIndex::Index(Index::Index(0)), ArrayIndex::Index(Index::LastIndex(x))],
+                ];
+                for f in forms {
+                    let r = guard(|| {
+                        let p = JsonPath { paths: vec![Path::Root, Path::ArrayIndices(f.clone())] };
+                        let text = format!("{}", p);
+                        for m in [Mode::All, Mode::First, Mode::Array, Mode::Mixed] {
+                            let sel = Selector::new(p.clone(), m);
+                            let (mut d, mut o) = (Vec::new(), Vec::new());
+                            let _ = sel.select(&doc, &mut d, &mut o);
+                            let _ = sel.exists(&doc);
+                        }
+                        text
+                    });
+                    if let Err(p) = r {
+                        ctx.panic_violation("JsonPath(api-built, extreme indices)", &p, &info);
+                    }
+                }
+                let r = guard(|| {
+                    let k = KeyPaths { paths: vec![KeyPath::Index(x), KeyPath::Index(y)] };
+                    let text = format!("{}", k);
+                    let _ = jsonb::get_by_keypath(&doc, k.paths.iter());
+                    let mut o = Vec::new();
+                    let _ = jsonb::delete_by_keypath(&doc, k.paths.iter(), &mut o);
+                    text
+                });
+                if let Err(p) = r {
+                    ctx.panic_violation("KeyPaths(api-built, extreme indices)", &p, &info);
+                }
+            }
+        }
+        // index lists in every order (ascending, descending, repeated, `last` first)
+        for text in ["$[1,0]", "$[2,1,0]", "$[last,0]", "$[last,2,last]", "$[1 to last,0]", "$[2 to last, 0 to 1]", "$[0,0]", "$[last - 1 to 2147483647, -2147483648 to 0]", "$[2147483647,0]", "$[0,-2147483648,1]"] {
+            ctx.next_case();
+            for m in 0..4 {
+                if let super::paths::Sel::Panic(p) = super::paths::select(text.as_bytes(), &doc, m) {
+                    ctx.panic_violation("select(index list order)", &p, &|| format!("path={}", text));
+                }
+            }
+        }
+    }
     // random paths with big indices
     let n = ctx.budget(4_000, 100_000);
     let cfg = PathCfg { max_steps: 3, filters: true, big_indices: true };
